@@ -141,14 +141,64 @@ def check_increment_idiom(run, rule, fn, param="round_up", up=True, inc=None, ta
               detail="a non-incrementing return path exists when %s=%s (remainder == 0)" % (param, str(up).lower()))
 
 
+def check_increment_overflow(run, rule, fn):
+    """A quotient obtained by shifting a wide product right and narrowing it (`(p >> 64) as u64`) can be the type's maximum with a
+    non-zero remainder; adding one must then be refused (`== MAX` test before the increment, or `checked_add` whose None is an
+    error), not wrap (release builds have overflow checks off) and not saturate (that rounds down)."""
+    pv = prov_of(fn)
+    sites = []
+    for bi, bb in enumerate(fn.blocks):
+        if bb["c"]:
+            continue
+        for si, st in enumerate(bb["s"]):
+            if st["k"] == "=" and st["rv"].get("bin") in ("Add", "AddWithOverflow", "AddUnchecked"):
+                for a, b in (("a", "b"), ("b", "a")):
+                    k = op_const(st["rv"][b])
+                    if k is not None and k.get("v") == "1":
+                        sites.append((bi, "plain", pv.operand(st["rv"][a], bi, si)))
+        t = bb["t"]
+        if t["k"] == "call" and len(t["a"]) == 2 and (op_const(t["a"][1]) or {}).get("v") == "1":
+            last = (callee_path(t) or "").rsplit("::", 1)[-1]
+            if last in ("checked_add", "wrapping_add", "overflowing_add", "saturating_add", "strict_add"):
+                sites.append((bi, last, pv.operand(t["a"][0], bi, len(bb["s"]))))
+    narrowed = []
+    for bi, how, term in sites:
+        t0 = term
+        while t0[0] == "q":
+            t0 = t0[1]
+        if t0[0] == "cast" and strip(t0)[0] == "bin" and strip(t0)[1] == "Shr":
+            narrowed.append((bi, how, term, t0[2]))
+    for bi, how, term, ty in narrowed:
+        maxv = {"u64": (1 << 64) - 1, "u128": (1 << 128) - 1, "u32": (1 << 32) - 1}.get(ty)
+        ok = how in ("checked_add", "strict_add")
+        if not ok and how == "plain" and maxv is not None:
+            for at in A.atoms(fn):
+                c = at.cond()
+                if c and c[0] in ("Eq", "Ne"):
+                    for x, y in ((c[1], c[2]), (c[2], c[1])):
+                        if const_val(y) == maxv and strip(x) == strip(term):
+                            hit = at.true_targets if c[0] == "Eq" else at.false_targets
+                            r = set()
+                            for b in hit:
+                                r |= cfg.reach(fn, b, cut_blocks=[at.block])
+                            if bi not in r:
+                                ok = True
+        run.check(rule, "incr-overflow@" + fn.path, ok, "%s adds one to a narrowed quotient (%s) without refusing the case quotient == %s::MAX (%s)" % (fn.path, sh(term, 60), ty, how),
+                  loc=fn.loc(), detail="== MAX refused before the increment / checked_add")
+    return len(narrowed)
+
+
 def R2_rounding_primitives(run):
     run.title("R2", "the six rounding primitives add one only in context round_up = true and only behind a remainder test; the round_up-free "
                     "wrappers pass the constant their name says")
     facts = run.facts
+    n_narrow = 0
     for p in INCR_PRIMS:
         fn = facts.need_fn(p)
         run.touch(fn)
         check_increment_idiom(run, "R2", fn)
+        n_narrow += check_increment_overflow(run, "R2", fn)
+    run.floor("R2", "increments of narrowed shift quotients", n_narrow, 2)
     wrappers = [(BM + "checked_mul_div", BM + "checked_mul_div_round_up_if", 3, False),
                 (BM + "checked_mul_div_round_up", BM + "checked_mul_div_round_up_if", 3, True),
                 (BM + "div_round_up", BM + "div_round_up_if", 2, True),
@@ -354,15 +404,19 @@ def R4_fee_and_amounts(run):
     has_min = False
     for ab in (False, True):
         fo = _step_fields(fn, {"amount_specified_is_input": False, "a_to_b": ab})
-        outs = []
-        for x in leaves(fo["amount_out"]):
-            m = as_min(x)     # `fixed.min(amount_remaining)`: the cap written as a minimum
-            if m:
-                has_min = True
-                for y in m:
-                    outs.extend(leaves(y))
-            else:
-                outs.append(x)
+        raw = leaves(fo["amount_out"])
+        mins = [as_min(x) for x in raw]     # `fixed.min(amount_remaining)`: the cap written as a minimum
+        if raw and all(mins):
+            # every alternative is itself a minimum of (fixed-side delta, amount_remaining)
+            has_min = True
+            outs = []
+            for m in mins:
+                sides = [leaves(m[0]), leaves(m[1])]
+                okm = any(all(is_param(y, "amount_remaining") for y in sd) for sd in sides) and any(all(_is_fixed(y) for y in sd) for sd in sides)
+                outs.extend(sides[0] + sides[1] if okm else [("unknown", "min of something else")])
+            outs = list(dict.fromkeys(outs))
+        else:
+            outs = raw
         cap = [x for x in outs if is_param(x, "amount_remaining")]
         fixed = [x for x in outs if _is_fixed(x)]
         run.check("R4", "exact-out.amount_out[a_to_b=%d]" % ab, len(cap) == 1 and fixed and len(cap) + len(fixed) == len(outs),
